@@ -241,6 +241,30 @@ func allCallArgs(rel, fn, re string) []string {
 	return out
 }
 
+// lockTable: for every exported method of receiver type recv in rel: "Name: <first stmt>; <second stmt>"
+func lockTable(rel, recv string) []string {
+	f := parseFile(rel)
+	if f == nil {
+		return missing(rel)
+	}
+	out := []string{}
+	for _, d := range f.Decls {
+		fd, ok := d.(*ast.FuncDecl)
+		if !ok || fd.Recv == nil || recvName(fd) != recv || !fd.Name.IsExported() || fd.Body == nil || fd.Name.Name == "String" {
+			continue
+		}
+		first := []string{}
+		for i, st := range fd.Body.List {
+			if i >= 2 {
+				break
+			}
+			first = append(first, src(st))
+		}
+		out = append(out, fd.Name.Name+": "+strings.Join(first, "; "))
+	}
+	return out
+}
+
 // structFields: "name type" for every field of struct type `name` in rel.
 func structFields(rel, name string) []string {
 	f := parseFile(rel)
